@@ -28,10 +28,17 @@
 #define XCAP (65536 + 64)
 #define CANARY16 0xA5A5
 
-static uint16_t xbuf[XCAP];
+/* all scratch state is per call (handlers must be re-entrant) */
+typedef struct {
+    uint16_t *xbuf_;           /* XCAP elements */
+    char *sb_; size_t sbcap, sblen;
+    long *fld_;                /* MAXF fields */
+    uint16_t *before1, *before2, *many;
+} bmctx;
+#define xbuf (cx->xbuf_)
 
 /* ToArray into a canary-filled scratch; *over = wrote beyond card elements */
-static uint32_t export_(const varintBitmap *vb, int *over) {
+static uint32_t export_(bmctx *cx, const varintBitmap *vb, int *over) {
     uint32_t card = varintBitmapCardinality(vb);
     for (size_t i = 0; i < XCAP; i++) xbuf[i] = CANARY16;
     uint32_t n = varintBitmapToArray(vb, xbuf);
@@ -42,18 +49,19 @@ static uint32_t export_(const varintBitmap *vb, int *over) {
     return n;
 }
 
-static char *sb;
-static size_t sbcap, sblen;
-static void sput(const char *s) {
+static void sput_(bmctx *cx, const char *s) {
     size_t n = strlen(s);
-    if (sblen + n + 1 > sbcap) { sbcap = (sblen + n + 1) * 2; sb = realloc(sb, sbcap); }
-    memcpy(sb + sblen, s, n + 1);
-    sblen += n;
+    if (cx->sblen + n + 1 > cx->sbcap) { cx->sbcap = (cx->sblen + n + 1) * 2; cx->sb_ = realloc(cx->sb_, cx->sbcap); }
+    memcpy(cx->sb_ + cx->sblen, s, n + 1);
+    cx->sblen += n;
 }
-static void sreset(void) { sblen = 0; if (sb) sb[0] = 0; else sput(""); }
+static void sreset_(bmctx *cx) { cx->sblen = 0; if (cx->sb_) cx->sb_[0] = 0; else sput_(cx, ""); }
+#define sput(s) sput_(cx, s)
+#define sreset() sreset_(cx)
+#define sb (cx->sb_)
 
 /* values as maximal chunks of consecutive increments: "3-7,9,12-13" */
-static void intervals(const uint16_t *v, uint32_t n) {
+static void intervals(bmctx *cx, const uint16_t *v, uint32_t n) {
     char t[32];
     uint32_t i = 0;
     int first = 1;
@@ -97,7 +105,7 @@ static int fields(const char *s, const char *end, long *f, int max) {
 }
 
 #define MAXF 70000
-static long fld[MAXF];
+#define fld (cx->fld_)
 
 static void h_bm_ops(const vcase *c) {
     const char *ops = c->argc > 0 ? c->argv[0] : "";
@@ -106,12 +114,14 @@ static void h_bm_ops(const vcase *c) {
     if (c->argc > 1) hex = arg_hex(c, 1, &hexlen);
     varintBitmap *pool[POOL];
     for (int i = 0; i < POOL; i++) pool[i] = varintBitmapCreate();
-    static uint16_t *before1, *before2, *many;
-    if (!before1) {
-        before1 = malloc(XCAP * 2);
-        before2 = malloc(XCAP * 2);
-        many = malloc(MAXF * 2);
-    }
+    bmctx ctx, *cx = &ctx;
+    memset(cx, 0, sizeof *cx);
+    cx->xbuf_ = malloc(XCAP * sizeof(uint16_t));
+    cx->fld_ = malloc(MAXF * sizeof(long));
+    cx->before1 = malloc(XCAP * 2);
+    cx->before2 = malloc(XCAP * 2);
+    cx->many = malloc(MAXF * 2);
+    uint16_t *before1 = cx->before1, *before2 = cx->before2, *many = cx->many;
     int step = 0;
     const char *p = ops;
     char key[32], t[96];
@@ -145,34 +155,31 @@ static void h_bm_ops(const vcase *c) {
         case 'k': {
             int j = (int)(fld[1] & 3);
             int o1;
-            uint32_t n1 = export_(pool[j], &o1);
+            uint32_t n1 = export_(cx, pool[j], &o1);
             memcpy(before1, xbuf, (size_t)n1 * 2);
             uint32_t c1 = varintBitmapCardinality(pool[j]);
             varintBitmap *r = varintBitmapClone(pool[j]);
-            uint32_t n1b = export_(pool[j], &o1);
+            uint32_t n1b = export_(cx, pool[j], &o1);
             int same = n1 == n1b && c1 == varintBitmapCardinality(pool[j]) && !memcmp(before1, xbuf, (size_t)n1 * 2);
-            if (r) {
-                if (i != j) { varintBitmapFree(pool[i]); pool[i] = r; }
-                else { varintBitmapFree(pool[i]); pool[i] = r; }
-            }
+            if (r) { varintBitmapFree(pool[i]); pool[i] = r; }
             snprintf(extra, sizeof extra, ":u%d", same);
             break;
         }
         case 'n': case 'o': case 'x': case 'd': {
             int j = (int)(fld[1] & 3), k = (int)(fld[2] & 3);
             int o1;
-            uint32_t n1 = export_(pool[j], &o1);
+            uint32_t n1 = export_(cx, pool[j], &o1);
             memcpy(before1, xbuf, (size_t)n1 * 2);
-            uint32_t n2 = export_(pool[k], &o1);
+            uint32_t n2 = export_(cx, pool[k], &o1);
             memcpy(before2, xbuf, (size_t)n2 * 2);
             uint32_t c1 = varintBitmapCardinality(pool[j]), c2 = varintBitmapCardinality(pool[k]);
             varintBitmap *r = op == 'n' ? varintBitmapAnd(pool[j], pool[k])
                             : op == 'o' ? varintBitmapOr(pool[j], pool[k])
                             : op == 'x' ? varintBitmapXor(pool[j], pool[k])
                                         : varintBitmapAndNot(pool[j], pool[k]);
-            uint32_t n1b = export_(pool[j], &o1);
+            uint32_t n1b = export_(cx, pool[j], &o1);
             int same = n1 == n1b && c1 == varintBitmapCardinality(pool[j]) && !memcmp(before1, xbuf, (size_t)n1 * 2);
-            uint32_t n2b = export_(pool[k], &o1);
+            uint32_t n2b = export_(cx, pool[k], &o1);
             same = same && n2 == n2b && c2 == varintBitmapCardinality(pool[k]) && !memcmp(before2, xbuf, (size_t)n2 * 2);
             if (r) { varintBitmapFree(pool[i]); pool[i] = r; }
             snprintf(extra, sizeof extra, ":u%d", same);
@@ -226,7 +233,7 @@ static void h_bm_ops(const vcase *c) {
         int over = 0;
         uint32_t n = 0, lim = 0;
         if (digest) {
-            n = export_(vb, &over);
+            n = export_(cx, vb, &over);
             uint64_t sum = 0;
             lim = n < XCAP ? n : XCAP;
             for (uint32_t k = 0; k < lim; k++) sum += xbuf[k];
@@ -253,7 +260,7 @@ static void h_bm_ops(const vcase *c) {
         out_str(key, sb);
         if (exp_full) {
             sreset();
-            intervals(xbuf, lim);
+            intervals(cx, xbuf, lim);
             snprintf(key, sizeof key, "%de", step);
             out_str(key, sb);
         }
@@ -265,7 +272,7 @@ static void h_bm_ops(const vcase *c) {
                 xbuf[cnt++] = it.currentValue;
             }
             sreset();
-            intervals(xbuf, cnt);
+            intervals(cx, xbuf, cnt);
             sput(it.hasValue ? "/h1" : "/h0");
             snprintf(key, sizeof key, "%dt", step);
             out_str(key, sb);
@@ -275,6 +282,7 @@ static void h_bm_ops(const vcase *c) {
     }
     for (int i = 0; i < POOL; i++) varintBitmapFree(pool[i]);
     free(hex);
+    free(cx->xbuf_); free(cx->fld_); free(cx->before1); free(cx->before2); free(cx->many); free(cx->sb_);
 }
 
 static const vreg tab[] = {
